@@ -129,7 +129,7 @@ def run(ctx: Ctx):
     if calls:
         site = calls[0]
         g = guards_of(calls[0], pmi)
-        ok = all(("'r' in" in norm(t) or '"r" in' in norm(t)) and pol for t, pol in g) and len(g) <= 1
+        ok = len(g) == 1 and norm(g[0][0]) in ("'r' in mode", "mode == 'r'", "mode.startswith('r')") and g[0][1]
     ctx.ob("R14.2", init, site, ok, "opening in read mode always runs the verification "
            "(guarded by nothing but the read-mode test)", node=site)
 
